@@ -1,0 +1,49 @@
+//go:build verif
+
+// White-box access for the /verif R21 sub-check (role restrictions at the
+// NodeHost API level). Compiled only with -tags verif. Add-only: nothing here
+// is referenced by the regular build.
+
+package raft
+
+// VerifR21PeerState is what the R21 harness reads from the raft peer of a
+// running node: its role and whether any proposal / ReadIndex request is held
+// or was dropped by it.
+type VerifR21PeerState struct {
+	Role           string // Follower | Candidate | PreVoteCandidate | Leader | NonVoting | Witness
+	Term           uint64
+	LeaderID       uint64
+	PendingReads   int // ReadIndex requests waiting for confirmation
+	DroppedEntries int // proposals dropped and not yet reported
+	DroppedReads   int // ReadIndex requests dropped and not yet reported
+	ReadyToRead    int
+	Committed      uint64
+	FirstIndex     uint64
+	LastIndex      uint64
+	Applied        uint64
+	Voters         int
+	NonVotings     int
+	Witnesses      int
+}
+
+// VerifR21Peer inspects p. The caller holds the lock that serialises access to
+// the peer (node.raftMu).
+func VerifR21Peer(p *Peer) VerifR21PeerState {
+	r := p.raft
+	return VerifR21PeerState{
+		Role:           r.state.String(),
+		Term:           r.term,
+		LeaderID:       r.leaderID,
+		PendingReads:   len(r.readIndex.queue),
+		DroppedEntries: len(r.droppedEntries),
+		DroppedReads:   len(r.droppedReadIndexes),
+		ReadyToRead:    len(r.readyToRead),
+		Committed:      r.log.committed,
+		FirstIndex:     r.log.firstIndex(),
+		LastIndex:      r.log.lastIndex(),
+		Applied:        r.getApplied(),
+		Voters:         len(r.remotes),
+		NonVotings:     len(r.nonVotings),
+		Witnesses:      len(r.witnesses),
+	}
+}
